@@ -40,7 +40,10 @@ json raw_rows(world& w)
     vh::raw_reader rr{w.conn};
     json r;
     r["pl"] = rr.rows("SELECT id, title, parentListId, nextListId FROM Playlist ORDER BY id", "itii");
-    r["pe"] = rr.rows("SELECT id, listId, trackId, nextEntityId FROM PlaylistEntity ORDER BY id", "iiii");
+    // (an entity that names a track of ANOTHER database - databaseUuid other than this library's - is logged as track id + 100,
+    //  which is how the model tells (track 1, here) from (track 1, elsewhere): the UNIQUE key is (listId, trackId, databaseUuid))
+    r["pe"] = rr.rows("SELECT id, listId, trackId + 100 * (databaseUuid <> (SELECT uuid FROM Information)), nextEntityId FROM PlaylistEntity "
+                      "ORDER BY id", "iiii");
     r["seq"] = rr.rows("SELECT name, seq FROM sqlite_sequence ORDER BY name", "ti");
     r["plx"] = rr.rows("SELECT id, isPersisted, isExplicitlyExported FROM Playlist ORDER BY id", "iii");
     return r;
@@ -66,10 +69,15 @@ json observe(world& w)
         x["child_ids"] = ids_json(p.child_ids(id));
         x["descendant_ids"] = ids_json(p.descendant_ids(id));
         x["track_ids"] = ids_json(e.track_ids(id));
-        json eids = json::array();
+        json eids = json::array(), ents = json::array();
+        auto own_uuid = w.lib->information().get().uuid;
         for (auto& er : e.get_for_list(id))
+        {
             eids.push_back(er.id);
+            ents.push_back(er.track_id + (er.database_uuid != own_uuid ? 100 : 0));
+        }
         x["entity_ids"] = eids;
+        x["ents"] = ents;
         int64_t found = 0;
         if (row)
         {
@@ -242,7 +250,9 @@ int main(int argc, char** argv)
         else if (name == "pe_add")
         {
             f = [&, list, track] {
-                v2::playlist_entity_row row{v2::PLAYLIST_ENTITY_ROW_ID_NONE, list, track, w.lib->information().get().uuid,
+                // (model track ids >= 100: the same track id in another database)
+                v2::playlist_entity_row row{v2::PLAYLIST_ENTITY_ROW_ID_NONE, list, track % 100,
+                                            track >= 100 ? std::string("11111111-2222-3333-4444-555555555555") : w.lib->information().get().uuid,
                                             v2::PLAYLIST_ENTITY_NO_NEXT_ENTITY_ID, v2::PLAYLIST_ENTITY_DEFAULT_MEMBERSHIP_REFERENCE};
                 newid = e.add_back(row, false);
             };
